@@ -1,20 +1,23 @@
 package main
 
 // Shared-state rule (used by several properties): a codec / request path whose result must be a
-// function of its inputs alone, for every input and under concurrent use, may not write
-// package-level state. Decided by an effect scan over every module function reachable from the
-// given roots (VTA call graph): stores, map updates, copy/append/delete/clear whose destination
-// is (derived from) a package-level variable, and calls that hand a reference derived from a
-// package-level variable to other code. The latter has one frozen exemption, confirmed by
-// reading the call sites of the pinned tree: values of interface type error (the sentinel
-// errors handed to errors.Is and to the error callback) — error values are never written
-// through by the library or the standard library.
+// function of its inputs alone, for every input and under concurrent use, may not depend on
+// package-level state that changes at run time, nor race on it. Decided in two steps. (1)
+// Module-wide: which package-level variables are not constant after initialisation
+// (mutableGlobals: stored to, map-updated, copy/append destination, or handed by reference to a
+// call, anywhere outside init; one frozen exemption confirmed by reading the call sites of the
+// pinned tree: values of interface type error — the sentinels handed to errors.Is and to the
+// error callback). (2) On every module function reachable from the given roots (VTA call
+// graph plus function values handed to other code): every instruction naming such a variable
+// is a finding, except the synchronised idioms listed at sharedStateScan.
 
 import (
 	"fmt"
 	"go/token"
 	"go/types"
+	"golang.org/x/tools/go/ssa/ssautil"
 	"sort"
+	"strings"
 
 	"golang.org/x/tools/go/ssa"
 )
@@ -82,17 +85,286 @@ func isSharedRef(t types.Type) bool {
 	return false
 }
 
-// sharedStateScan returns the functions examined, the number of effect sites looked at and the
-// findings.
+// mutableGlobals: package-level variables of the module that something in the module (outside
+// package initialisation) writes, or whose storage is handed to other code: stores, map updates,
+// copy/append/delete/clear with such a destination, and calls that receive a reference derived
+// from the variable (error-typed values excepted). Everything else is constant after init.
+func (c *Ctx) mutableGlobals() map[*ssa.Global]string {
+	if c.mutGlobals != nil {
+		return c.mutGlobals
+	}
+	m := map[*ssa.Global]string{}
+	gb := func(v ssa.Value) *ssa.Global { return globalBase(v, 0, map[ssa.Value]bool{}) }
+	mark := func(g *ssa.Global, why string) {
+		if g != nil && g.Pkg != nil && strings.HasPrefix(g.Pkg.Pkg.Path(), c.modRoot) {
+			if _, ok := m[g]; !ok {
+				m[g] = why
+			}
+		}
+	}
+	for fn := range ssautil.AllFunctions(c.prog) {
+		if !c.inModule(fn) || fn.Name() == "init" || strings.HasPrefix(fn.Name(), "init#") {
+			continue
+		}
+		for _, b := range fn.Blocks {
+			for _, in := range b.Instrs {
+				switch x := in.(type) {
+				case *ssa.Store:
+					mark(gb(x.Addr), "stored to in "+fn.Name())
+				case *ssa.MapUpdate:
+					mark(gb(x.Map), "map updated in "+fn.Name())
+				case ssa.CallInstruction:
+					cm := x.Common()
+					if bi, ok := cm.Value.(*ssa.Builtin); ok {
+						switch bi.Name() {
+						case "copy", "append", "delete", "clear":
+							if len(cm.Args) > 0 {
+								mark(gb(cm.Args[0]), bi.Name()+" destination in "+fn.Name())
+							}
+						}
+						continue
+					}
+					ops := append([]ssa.Value{}, cm.Args...)
+					if cm.IsInvoke() {
+						ops = append(ops, cm.Value)
+					}
+					for _, a := range ops {
+						if isSharedRef(a.Type()) {
+							mark(gb(a), "handed to a call in "+fn.Name())
+						}
+					}
+				}
+			}
+		}
+	}
+	c.mutGlobals = m
+	return m
+}
+
+// syncExempt classifies a call that operates on a package-level variable through the
+// synchronised primitives of sync and sync/atomic: such a call is not a data race; it matters
+// only if a value comes back from it (then the caller reads state other callers change).
+func syncExempt(cm *ssa.CallCommon) (exempt bool, reads bool) {
+	sc := cm.StaticCallee()
+	if sc == nil {
+		return false, false
+	}
+	pkg := ""
+	if sc.Pkg != nil {
+		pkg = sc.Pkg.Pkg.Path()
+	} else if sc.Signature.Recv() != nil {
+		if n, ok := deref(sc.Signature.Recv().Type()).(*types.Named); ok && n.Obj().Pkg() != nil {
+			pkg = n.Obj().Pkg().Path()
+		}
+	}
+	switch pkg {
+	case "sync/atomic":
+		return true, sc.Signature.Results().Len() > 0
+	case "sync":
+		if sc.Signature.Recv() != nil {
+			if n, ok := deref(sc.Signature.Recv().Type()).(*types.Named); ok {
+				switch n.Obj().Name() {
+				case "Mutex", "RWMutex", "WaitGroup":
+					return true, false
+				}
+			}
+		}
+	}
+	return false, false
+}
+
+func valueUsed(v ssa.Value) bool {
+	refs := v.Referrers()
+	if refs == nil {
+		return false
+	}
+	for _, r := range *refs {
+		if _, dbg := r.(*ssa.DebugRef); !dbg {
+			return true
+		}
+	}
+	return false
+}
+
+// poolUseOK: the value taken from a package-level sync.Pool by `get` is used as a private
+// scratch object: nothing derived from it is returned, stored outside itself or local cells,
+// captured, sent, or handed to module code; and nothing derived from it is used after it was
+// put back (a deferred Put is always last).
+func poolUseOK(fn *ssa.Function, get *ssa.Call) (bool, string) {
+	T := map[ssa.Value]bool{get: true}
+	cells := map[*ssa.Alloc]bool{}
+	for changed := true; changed; {
+		changed = false
+		mark := func(v ssa.Value) {
+			if !T[v] {
+				T[v], changed = true, true
+			}
+		}
+		for _, b := range fn.Blocks {
+			for _, in := range b.Instrs {
+				switch x := in.(type) {
+				case *ssa.TypeAssert:
+					if T[x.X] {
+						mark(x)
+					}
+				case *ssa.Extract:
+					if T[x.Tuple] {
+						mark(x)
+					}
+				case *ssa.UnOp:
+					if T[x.X] {
+						mark(x)
+					}
+					if al, ok := x.X.(*ssa.Alloc); ok && cells[al] {
+						mark(x)
+					}
+				case *ssa.Slice:
+					if T[x.X] {
+						mark(x)
+					}
+				case *ssa.IndexAddr:
+					if T[x.X] {
+						mark(x)
+					}
+				case *ssa.FieldAddr:
+					if T[x.X] {
+						mark(x)
+					}
+				case *ssa.Phi:
+					for _, e := range x.Edges {
+						if T[e] {
+							mark(x)
+						}
+					}
+				case *ssa.ChangeType:
+					if T[x.X] {
+						mark(x)
+					}
+				case *ssa.Convert:
+					if T[x.X] {
+						mark(x)
+					}
+				case *ssa.MakeInterface:
+					if T[x.X] {
+						mark(x)
+					}
+				case *ssa.Call:
+					if bi, ok := x.Common().Value.(*ssa.Builtin); ok && bi.Name() == "append" && len(x.Common().Args) > 0 && T[x.Common().Args[0]] {
+						mark(x)
+					}
+				case *ssa.Store:
+					if al, ok := x.Addr.(*ssa.Alloc); ok && T[x.Val] && !cells[al] {
+						cells[al], changed = true, true
+					}
+				}
+			}
+		}
+	}
+	var puts []ssa.Instruction
+	for _, b := range fn.Blocks {
+		for _, in := range b.Instrs {
+			switch x := in.(type) {
+			case *ssa.Return:
+				for _, rv := range x.Results {
+					if T[rv] {
+						return false, "a value taken from the pool is returned"
+					}
+				}
+			case *ssa.Store:
+				if T[x.Val] {
+					if _, isCell := x.Addr.(*ssa.Alloc); !isCell && !T[x.Addr] {
+						return false, "a value taken from the pool is stored into memory that outlives the call"
+					}
+				}
+			case *ssa.MapUpdate:
+				if T[x.Key] || T[x.Value] {
+					return false, "a value taken from the pool is put into a map"
+				}
+			case *ssa.Send:
+				if T[x.X] {
+					return false, "a value taken from the pool is sent on a channel"
+				}
+			case *ssa.MakeClosure:
+				for _, bv := range x.Bindings {
+					if T[bv] {
+						return false, "a value taken from the pool is captured by a closure"
+					}
+					if al, ok := bv.(*ssa.Alloc); ok && cells[al] {
+						return false, "a variable holding a pooled value is captured by a closure"
+					}
+				}
+			case ssa.CallInstruction:
+				cm := x.Common()
+				if _, isBuiltin := cm.Value.(*ssa.Builtin); isBuiltin {
+					continue
+				}
+				anyT := false
+				for _, a := range cm.Args {
+					if T[a] {
+						anyT = true
+					}
+				}
+				if !anyT {
+					continue
+				}
+				sc := cm.StaticCallee()
+				if sc != nil && sc.String() == "(*sync.Pool).Put" {
+					if _, isDefer := in.(*ssa.Defer); !isDefer {
+						puts = append(puts, in)
+					}
+					continue
+				}
+				if sc == nil || sc.Pkg == nil {
+					return false, "a value taken from the pool is handed to a dynamic call"
+				}
+				switch sc.Pkg.Pkg.Path() {
+				case "encoding/binary", "bytes":
+				default:
+					return false, "a value taken from the pool is handed to " + sc.String()
+				}
+			}
+		}
+	}
+	for _, p := range puts {
+		for _, b := range fn.Blocks {
+			for _, in := range b.Instrs {
+				if in == p {
+					continue
+				}
+				after := (b == p.Block() && instrBefore(p, in)) || (b != p.Block() && blockReaches(p.Block(), b))
+				if b == p.Block() && !instrBefore(p, in) && blockReaches(b, b) {
+					after = true // same block again on a later iteration
+				}
+				if !after {
+					continue
+				}
+				for _, op := range in.Operands(nil) {
+					if op != nil && *op != nil && T[*op] {
+						if _, isPhi := in.(*ssa.Phi); !isPhi {
+							return false, "a value taken from the pool is used after it was put back"
+						}
+					}
+				}
+			}
+		}
+	}
+	return true, ""
+}
+
+// sharedStateScan returns the functions examined, the number of sites looked at and the findings:
+// every instruction on the path that names a package-level variable of the module which is not
+// constant after initialisation (mutableGlobals), except
+//   - synchronised primitives applied to it whose result is not used (a lock, an atomic counter
+//     that is only incremented);
+//   - the sync.Once idiom: the call of Do, the stores of an initialiser that only Do runs, and uses
+//     of the variables it fills that are dominated by that Once's Do;
+//   - a package-level sync.Pool whose objects are used as private scratch memory (poolUseOK).
 func sharedStateScan(c *Ctx, roots []*ssa.Function) ([]*ssa.Function, int, []sharedFinding) {
 	fns := reachableInModule(c, roots)
+	mut := c.mutableGlobals()
 	n := 0
 	var out []sharedFinding
 	gb := func(v ssa.Value) *ssa.Global { return globalBase(v, 0, map[ssa.Value]bool{}) }
-	// The one accepted way of filling package-level state lazily: a function run by
-	// (*sync.Once).Do on a package-level Once and called from nowhere else. Its stores are
-	// exempt, provided every other use of the variables it writes is dominated, in its own
-	// function, by a call of that Once's Do (so it happens after the initialisation).
 	onceInit := map[*ssa.Function]*ssa.Global{} // initialiser -> its Once
 	onceCalls := map[*ssa.Function]map[*ssa.Global][]ssa.Instruction{}
 	for _, fn := range fns {
@@ -161,74 +433,63 @@ func sharedStateScan(c *Ctx, roots []*ssa.Function) ([]*ssa.Function, int, []sha
 		return false
 	}
 	for _, fn := range fns {
-		_, isInit := onceInit[fn]
+		initOnce, isInit := onceInit[fn]
 		for _, b := range fn.Blocks {
 			for _, in := range b.Instrs {
-				if !isInit {
-					// uses of once-initialised variables outside the initialiser
-					for _, op := range in.Operands(nil) {
-						if op == nil || *op == nil {
-							continue
-						}
-						if g, ok := (*op).(*ssa.Global); ok {
-							if og, guarded := onceVars[g]; guarded && !afterOnce(fn, in, og) {
-								out = append(out, sharedFinding{fn, in.Pos(), "package-level variable " + g.Name() + " is filled lazily under " + og.Name() + " but used here without a preceding " + og.Name() + ".Do", "lazy-init-unsynchronised:" + g.Name()})
-							}
-						}
-					}
-				}
-				switch x := in.(type) {
-				case *ssa.Store:
-					n++
-					if g := gb(x.Addr); g != nil {
-						if isInit {
-							continue // the Once-guarded initialiser itself
-						}
-						out = append(out, sharedFinding{fn, in.Pos(), "store to memory of package-level variable " + g.Name(), "global-write:" + g.Name()})
-					}
-				case *ssa.MapUpdate:
-					n++
-					if g := gb(x.Map); g != nil {
-						out = append(out, sharedFinding{fn, in.Pos(), "update of a map held in package-level variable " + g.Name(), "global-write:" + g.Name()})
-					}
-				case ssa.CallInstruction:
-					cm := x.Common()
-					if bi, ok := cm.Value.(*ssa.Builtin); ok {
-						switch bi.Name() {
-						case "copy", "append", "delete", "clear":
-							n++
-							if len(cm.Args) > 0 {
-								if g := gb(cm.Args[0]); g != nil {
-									out = append(out, sharedFinding{fn, in.Pos(), bi.Name() + " with a destination derived from package-level variable " + g.Name(), "global-write:" + g.Name()})
-								}
-							}
-						}
+				for _, op := range in.Operands(nil) {
+					if op == nil || *op == nil {
 						continue
 					}
-					ops := append([]ssa.Value{}, cm.Args...)
-					if cm.IsInvoke() {
-						ops = append(ops, cm.Value)
+					g, ok := (*op).(*ssa.Global)
+					if !ok {
+						continue
 					}
-					if sc := cm.StaticCallee(); sc != nil && sc.String() == "(*sync.Once).Do" {
-						if _, isG := cm.Args[0].(*ssa.Global); isG {
-							continue // handled above
-						}
+					why, isMut := mut[g]
+					if !isMut {
+						continue
 					}
-					for _, a := range ops {
-						if !isSharedRef(a.Type()) {
+					n++
+					// the sync.Once idiom
+					if og, guarded := onceVars[g]; guarded {
+						if isInit && og == initOnce {
 							continue
 						}
-						n++
-						if g := gb(a); g != nil {
-							callee := "a dynamic call"
-							if sc := cm.StaticCallee(); sc != nil {
-								callee = sc.String()
-							} else if cm.IsInvoke() {
-								callee = "method " + cm.Method.Name()
+						if afterOnce(fn, in, og) {
+							continue
+						}
+						out = append(out, sharedFinding{fn, in.Pos(), "package-level variable " + g.Name() + " is filled lazily under " + og.Name() + " but used here without a preceding " + og.Name() + ".Do", "lazy-init-unsynchronised:" + g.Name()})
+						continue
+					}
+					if ci, isCall := in.(ssa.CallInstruction); isCall {
+						cm := ci.Common()
+						if sc := cm.StaticCallee(); sc != nil {
+							switch sc.String() {
+							case "(*sync.Once).Do":
+								if len(cm.Args) == 2 && cm.Args[0] == ssa.Value(g) {
+									continue
+								}
+							case "(*sync.Pool).Get":
+								if call, isPlain := in.(*ssa.Call); isPlain {
+									if ok, whyNot := poolUseOK(fn, call); ok {
+										continue
+									} else {
+										out = append(out, sharedFinding{fn, in.Pos(), "object taken from package-level pool " + g.Name() + " is not private scratch memory: " + whyNot, "pool-escape:" + g.Name()})
+										continue
+									}
+								}
+							case "(*sync.Pool).Put":
+								continue // judged with the Get of the same function
 							}
-							out = append(out, sharedFinding{fn, in.Pos(), "a reference into package-level variable " + g.Name() + " is handed to " + callee + " (which may write through it)", "global-escape:" + g.Name()})
+						}
+						if exempt, reads := syncExempt(cm); exempt {
+							if v, isVal := in.(ssa.Value); !reads || !isVal || !valueUsed(v) {
+								continue
+							}
+							out = append(out, sharedFinding{fn, in.Pos(), "a value is read from package-level variable " + g.Name() + ", which changes at run time", "global-read:" + g.Name()})
+							continue
 						}
 					}
+					out = append(out, sharedFinding{fn, in.Pos(), "uses package-level variable " + g.Name() + ", which is not constant after initialisation (" + why + ")", "global-state:" + g.Name()})
 				}
 			}
 		}
@@ -253,7 +514,7 @@ func sharedStateRule(c *Ctx, r *Report, rule, construct, what string, roots []*s
 		r.fail(rule, fnID(f.fn), what+": "+f.what+" — the result is no longer a function of the inputs alone, and concurrent callers observe each other", c.pos(f.pos), "", f.sig)
 	}
 	if len(finds) == 0 {
-		r.ok(rule, construct, fmt.Sprintf("%s: none of the %d effect sites in the %d module functions reachable from it writes package-level state or hands a reference into it to other code", what, n, len(fns)), "-", true)
+		r.ok(rule, construct, fmt.Sprintf("%s: the %d module functions reachable from it use only package-level variables that are constant after initialisation (%d uses of mutable ones examined and exempted: locks, write-only atomic counters, sync.Once initialisers, private pool objects)", what, len(fns), n), "-", true)
 	}
 }
 
